@@ -36,7 +36,7 @@ VARIABLES case,      \* the case of this behaviour
           pc,        \* control point inside the call
           matrows,   \* row/column indices on which the (masked) matrix may be non-zero
           ident,     \* indices on which `identity` is one  (= where the ridge is added)
-          lamk,      \* kind of the largest-eigenvalue estimate: unset|one|pos|nan
+          lamk,      \* kind of the largest-eigenvalue estimate: unset|one|pos|zero|nan
           base,      \* what the ridge epsilon is multiplied by: unset|abs|rel_lam|rel_floor|nan
           tries,     \* completed attempts of the Newton retry loop (= metrics.total_retries)
           last,      \* error class of the last attempt: none|small|big|nan
@@ -175,12 +175,13 @@ Deflate ==
   /\ UNCHANGED <<case, matrows, ident, lamk, base, tries, last, kused, kref, figsrc, figcls,
                  xzero, accepted>>
 
-\* max_ev: 1.0 (absolute), max LOBPCG Ritz value, or power_iteration (start vector masked, so
-\* an all-padding input gives 0/0 = NaN).  bf: the estimate is below the floor.
+\* max_ev: 1.0 (absolute), max LOBPCG Ritz value, or power_iteration.  On an all-padding input the
+\* masked start vector is 0 and the estimate is 0/0 = NaN today; 0 would be as good (the result
+\* is overridden), so both are admitted.  bf: the estimate is below the floor.
 Estimate(lk, bf) ==
   /\ pc = "estimate"
   /\ IF ~case.rel THEN lk = "one" /\ ~bf
-     ELSE IF matrows = {} THEN lk = "nan" /\ ~bf
+     ELSE IF matrows = {} THEN lk \in {"nan", "zero"} /\ bf = (lk = "zero")
      ELSE /\ lk = "pos"
           /\ LamMaxBelowFloor(case) => bf
           \* eigh: the power iteration runs to 1e-6, so lambda_hat >= lambda_max * (1 - 1e-4)
@@ -261,7 +262,7 @@ Gate ==
   /\ UNCHANGED <<case, matrows, ident, lamk, base, tries, last, kused, kref, figsrc, figcls, xzero>>
 
 Next == \/ Mask \/ Deflate \/ Size1 \/ ExitLoop \/ Redeflate \/ Decompose \/ Override \/ Gate
-        \/ \E lk \in {"one", "pos", "nan"}, bf \in BOOLEAN : Estimate(lk, bf)
+        \/ \E lk \in {"one", "pos", "zero", "nan"}, bf \in BOOLEAN : Estimate(lk, bf)
         \/ \E cls \in ErrCls : Attempt(cls)
         \/ \E fc \in FigCls : Report(fc)
 
@@ -287,7 +288,7 @@ TypeOK ==
   /\ pc \in {"call", "deflate", "estimate", "size1", "loop", "decompose", "redeflate",
              "report", "override", "gate", "done"}
   /\ matrows \subseteq 1..case.n /\ ident \subseteq 1..case.n
-  /\ lamk \in {"unset", "one", "pos", "nan"}
+  /\ lamk \in {"unset", "one", "pos", "zero", "nan"}
   /\ base \in {"unset", "abs", "rel_lam", "rel_floor", "nan"}
   /\ tries \in 0..MaxTries /\ last \in ErrCls \cup {"none"}
   /\ kused \in 0..(MaxTries - 1) /\ kref \in 0..(MaxTries - 1)
@@ -305,7 +306,7 @@ RidgeConsistent  == pc \in AfterLoop =>
 \* relative epsilon is never applied to NaN or dropped silently; absolute never uses the estimate
 BaseConsistent   == pc \notin {"call", "deflate", "estimate"} =>
                       /\ case.rel = (base \in {"rel_lam", "rel_floor", "nan"})
-                      /\ (base = "nan") = (case.rel /\ AllPad(case))
+                      /\ base = "nan" => case.rel /\ AllPad(case)
                       /\ LamMaxBelowFloor(case) /\ case.rel /\ ~AllPad(case) => base = "rel_floor"
 PaddingNoRidge   == case.ps # -1 => ident \cap ((case.ps + 1)..case.n) = {}
 MaskAgrees       == pc # "call" => matrows = ident
